@@ -604,7 +604,7 @@ theorem chanSpec_acc (fuel : Nat) (s : Bytes) (acc : List Bytes) (used : Nat) :
         simp only [Option.map_map]
         congr 1
         funext r
-        simp [Function.comp_def, Nat.add_assoc]
+        simp [Nat.add_assoc]
       · simp
 
 theorem lexSpecific_ok {win : Bytes} {p : Nat} {ch : UInt8} (h : hd (win.drop p) (· == ch) = true) :
@@ -658,7 +658,7 @@ theorem channelSpec_spec (win : Bytes) (cap : Nat) : ∀ (fuel : Nat) (ns : List
           | zero => simp at hcf
           | succ cf =>
             unfold channelSpec
-            simp only [decimal_lexDecimal_eq, hD, if_true, hr, gt_iff_lt]
+            simp only [decimal_lexDecimal_eq, hD, if_true, hr]
             rw [lexSpecific_ok hb]
             have h10 : ((1 : Int) != 0) = true := by decide
             simp only [h10, if_true]
@@ -675,7 +675,7 @@ theorem channelSpec_spec (win : Bytes) (cap : Nat) : ∀ (fuel : Nat) (ns : List
         | zero => simp at hcf
         | succ cf =>
           unfold channelSpec
-          simp only [decimal_lexDecimal_eq, hD, if_true, hr, gt_iff_lt]
+          simp only [decimal_lexDecimal_eq, hD, if_true, hr]
           rw [lexSpecific_fail hb]
           have h00 : ((0 : Int) != 0) = false := by decide
           simp only [h00, Bool.false_eq_true, if_false]
@@ -718,5 +718,333 @@ theorem chanSpec_len : ∀ (fuel : Nat) (s : Bytes) (ns : List Bytes) (k : Nat),
         simp; omega
     · simp only [hD, if_false] at h
       cases h
+
+/-! ## one channel entry -/
+
+theorem lexColon_ok {win : Bytes} {p : Nat} (h : hd (win.drop p) (· == 58) = true) :
+    lexColon win p = (p + 1, ⟨.colon, p, 1⟩, 1) := by
+  unfold lexColon; rw [lexOneChar_eq, if_pos h]
+
+theorem lexColon_fail {win : Bytes} {p : Nat} (h : ¬ hd (win.drop p) (· == 58) = true) :
+    lexColon win p = (p, ⟨.unknown, p, 0⟩, 0) := by
+  unfold lexColon; rw [lexOneChar_eq, if_neg h]
+
+theorem channelRange_spec {win : Bytes} {pos : Nat} (cap : Nat) {e : Spec.ExprList.ChanEntry} {n : Nat}
+    (h : chanEntry (win.drop pos) = some (e, n)) :
+    channelRange win pos cap = (pos + n, .ok, some e.to_.isSome, (e.from_.take cap).map litInt32,
+        (match e.to_ with | some t => (t.take cap).map litInt32 | none => []), some e.from_.length) ∧
+      0 < n ∧ n ≤ (win.drop pos).length := by
+  unfold chanEntry at h
+  cases h1 : chanSpec ((win.drop pos).length + 1) (win.drop pos) [] 0 with
+  | none => rw [h1] at h; cases h
+  | some q1 =>
+    obtain ⟨fs, k⟩ := q1
+    rw [h1] at h
+    simp only [head_beq_iff, List.drop_drop] at h
+    obtain ⟨l1, l2, l3⟩ := chanSpec_len _ _ _ _ h1
+    have c1 := channelSpec_spec win cap _ fs k pos (win.length + 2) 0 [] h1 (by
+      simp only [List.length_drop] at l3; omega)
+    simp only [Nat.sub_zero, List.nil_append, Nat.zero_add] at c1
+    unfold channelRange
+    rw [c1]
+    have hok : (Res.ok == Res.ok) = true := by decide
+    simp only [hok, if_true]
+    by_cases hc : hd (win.drop (pos + k)) (· == 58) = true
+    · simp only [hc, if_true] at h
+      cases h2 : chanSpec ((win.drop pos).length + 1) (win.drop (pos + (k + 1))) [] 0 with
+      | none => rw [h2] at h; cases h
+      | some q2 =>
+        obtain ⟨ts, m⟩ := q2
+        rw [h2] at h
+        simp only at h
+        by_cases hlen : (ts.length == fs.length) = true
+        · simp only [hlen, if_true, Option.some.injEq, Prod.mk.injEq] at h
+          obtain ⟨rfl, rfl⟩ := h
+          obtain ⟨m1, m2, m3⟩ := chanSpec_len _ _ _ _ h2
+          have c2 := channelSpec_spec win cap _ ts m (pos + k + 1) (win.length + 2) 0 []
+            (by rw [Nat.add_assoc]; exact h2) (by simp only [List.length_drop] at m3; omega)
+          simp only [Nat.sub_zero, List.nil_append, Nat.zero_add] at c2
+          rw [lexColon_ok hc]
+          have h10 : ((1 : Int) != 0) = true := by decide
+          simp only [h10, if_true]
+          rw [c2]
+          have hlen' : ts.length = fs.length := by simpa using hlen
+          have hne : (Res.ok != Res.ok) = false := by decide
+          simp only [hne, Bool.false_eq_true, if_false, hlen', bne_self_eq_false, Option.isSome_some]
+          refine ⟨?_, by omega, ?_⟩
+          · refine Prod.ext (by simp only; omega) rfl
+          · simp only [List.length_drop] at m3 l3 ⊢; omega
+        · simp only [hlen, Bool.false_eq_true, if_false] at h
+          cases h
+    · simp only [hc, Bool.false_eq_true, if_false, Option.some.injEq, Prod.mk.injEq] at h
+      obtain ⟨rfl, rfl⟩ := h
+      rw [lexColon_fail hc]
+      have h00 : ((0 : Int) != 0) = false := by decide
+      simp only [h00, Bool.false_eq_true, if_false]
+      exact ⟨rfl, by omega, l3⟩
+
+/-! ## the channel entry loop -/
+
+theorem chanList_acc (fuel : Nat) (s : Bytes) (acc : List Spec.ExprList.ChanEntry) :
+    chanList fuel s acc = (chanList fuel s []).map (acc ++ ·) := by
+  induction fuel generalizing s acc with
+  | zero => rfl
+  | succ fuel ih =>
+    unfold chanList
+    cases chanEntry s with
+    | none => rfl
+    | some en =>
+      obtain ⟨e, n⟩ := en
+      simp only
+      split
+      · simp
+      · split
+        · rw [ih _ (acc ++ [e]), ih _ ([] ++ [e])]
+          simp [Option.map_map, Function.comp_def]
+        · rfl
+
+theorem chanLoop_spec (win : Bytes) (index cap : Nat) : ∀ (fuel : Nat) (es : List Spec.ExprList.ChanEntry)
+    (pos i lf : Nat) (rng : Option Bool) (dims : Option Nat),
+    chanList fuel (win.drop pos) [] = some es → i ≤ index → index - i + 1 ≤ lf →
+    (∀ e, es[index - i]? = some e →
+      (chanLoop win index cap lf i pos rng dims).2.1 = .ok ∧
+      (chanLoop win index cap lf i pos rng dims).2.2.1 = some e.to_.isSome ∧
+      (chanLoop win index cap lf i pos rng dims).2.2.2.1 = (e.from_.take cap).map litInt32 ∧
+      (∀ t, e.to_ = some t → (chanLoop win index cap lf i pos rng dims).2.2.2.2.1 = (t.take cap).map litInt32) ∧
+      (chanLoop win index cap lf i pos rng dims).2.2.2.2.2 = some e.from_.length) ∧
+    (es[index - i]? = none → (chanLoop win index cap lf i pos rng dims).2.1 = .noMore ∧
+      iseos win (chanLoop win index cap lf i pos rng dims).1 = true) := by
+  intro fuel
+  induction fuel with
+  | zero => intro es pos i lf rng dims h; simp [chanList] at h
+  | succ fuel ih =>
+    intro es pos i lf rng dims h hi hlf
+    unfold chanList at h
+    cases hne : chanEntry (win.drop pos) with
+    | none => rw [hne] at h; cases h
+    | some en =>
+      obtain ⟨e, n⟩ := en
+      rw [hne] at h
+      simp only [List.nil_append, List.drop_drop] at h
+      cases lf with
+      | zero => omega
+      | succ lf =>
+        unfold chanLoop
+        obtain ⟨hcr, hn0, hnle⟩ := channelRange_spec (if i == index then cap else 0) hne
+        rw [hcr]
+        have hok : (Res.ok != Res.ok) = false := by decide
+        simp only [hok, Bool.false_eq_true, if_false]
+        by_cases hidx : i = index
+        · subst hidx
+          have hes : ∃ tl, es = e :: tl := by
+            split at h
+            · exact ⟨[], by cases h; rfl⟩
+            · split at h
+              · rw [chanList_acc] at h
+                cases hh : chanList fuel (win.drop (pos + n + 1)) [] with
+                | none => rw [hh] at h; cases h
+                | some tl => rw [hh] at h; cases h; exact ⟨tl, rfl⟩
+              · cases h
+          obtain ⟨tl, rfl⟩ := hes
+          have hne' : (i != i) = false := by simp
+          simp only [hne', Bool.false_eq_true, if_false, Nat.sub_self, List.getElem?_cons_zero, BEq.rfl, if_true]
+          refine ⟨?_, by intro hc; cases hc⟩
+          intro e' he'
+          cases he'
+          refine ⟨trivial, rfl, rfl, ?_, rfl⟩
+          intro t ht
+          rw [ht]
+        · have hne' : (i != index) = true := by simp [hidx]
+          simp only [hne', if_true]
+          split at h
+          · rename_i hemp
+            have hnil : win.drop (pos + n) = [] := by simpa using hemp
+            obtain ⟨hcm, heos⟩ := lexComma_nil hnil
+            cases h
+            rw [hcm]
+            simp only [BEq.rfl, if_true, heos]
+            have : index - i = (index - i - 1) + 1 := by omega
+            rw [this]
+            simp
+          · split at h
+            · rename_i hcomma
+              have hcm := lexComma_cons (win := win) (p := pos + n) (by simpa using hcomma)
+              rw [hcm]
+              have h10 : ((1 : Int) == 0) = false := by decide
+              simp only [h10, Bool.false_eq_true, if_false]
+              rw [chanList_acc] at h
+              cases hh : chanList fuel (win.drop (pos + n + 1)) [] with
+              | none => rw [hh] at h; cases h
+              | some tl =>
+                rw [hh] at h
+                cases h
+                have hsub : index - i = (index - (i + 1)) + 1 := by omega
+                rw [hsub]
+                simp only [List.singleton_append, List.getElem?_cons_succ]
+                exact ih tl (pos + n + 1) (i + 1) lf _ _ hh (by omega) (by omega)
+            · cases h
+
+theorem channelListEntry_eq (win : Bytes) (index cap : Nat) :
+    channelListEntry win index cap =
+      if hd win (· == 64) = true then
+        let r := chanLoop win index cap (index + 2) 0 1 none none
+        if r.2.1 == .error then ⟨.error, r.2.2.1, r.2.2.2.1, r.2.2.2.2.1, r.2.2.2.2.2, [-170]⟩
+        else if r.2.1 == .noMore then
+          if !iseos win r.1 then ⟨.error, r.2.2.1, r.2.2.2.1, r.2.2.2.2.1, r.2.2.2.2.2, [-170]⟩
+          else ⟨.noMore, r.2.2.1, r.2.2.2.1, r.2.2.2.2.1, r.2.2.2.2.2, []⟩
+        else ⟨r.2.1, r.2.2.1, r.2.2.2.1, r.2.2.2.2.1, r.2.2.2.2.2, []⟩
+      else ⟨.error, none, [], [], none, [-170]⟩ := by
+  unfold channelListEntry lexSpecific
+  rw [lexOneChar_eq, List.drop_zero]
+  by_cases h : hd win (· == 64) = true
+  · have h10 : ((1 : Int) == 0) = false := by decide
+    simp only [h, if_true, h10, Bool.false_eq_true, if_false, Nat.zero_add]
+  · rw [if_neg h, if_neg h]
+    rfl
+
+theorem channel_entry (body : Bytes) (l : List Spec.ExprList.ChanEntry) (h : parseChanList body = some l) (i cap : Nat) :
+    let r := channelListEntry body i cap
+    match l[i]? with
+    | some e =>
+      r.res = .ok ∧ r.isRange = some e.to_.isSome ∧ r.dims = some e.from_.length ∧
+      r.from_ = (e.from_.take cap).map litInt32 ∧ (∀ t, e.to_ = some t → r.to_ = (t.take cap).map litInt32) ∧ r.pushed = []
+    | none => r.res = .noMore ∧ r.pushed = [] := by
+  intro r
+  unfold parseChanList at h
+  split at h
+  · rename_i rest
+    have hs := chanLoop_spec (64 :: rest) i cap (rest.length + 1) l 1 0 (i + 2) none none
+      (by simpa using h) (Nat.zero_le _) (by omega)
+    simp only [Nat.sub_zero] at hs
+    have hr : r = _ := channelListEntry_eq (64 :: rest) i cap
+    rw [hr]
+    simp only [hd_cons, BEq.rfl, if_true]
+    generalize chanLoop (64 :: rest) i cap (i + 2) 0 1 none none = q at hs
+    cases hl : l[i]? with
+    | some e =>
+      obtain ⟨h1, h2, h3, h4, h5⟩ := hs.1 e hl
+      have e1 : (Res.ok == Res.error) = false := by decide
+      have e2 : (Res.ok == Res.noMore) = false := by decide
+      simp only [h1, e1, e2, Bool.false_eq_true, if_false]
+      exact ⟨trivial, h2, h5, h3, h4, trivial⟩
+    | none =>
+      obtain ⟨h1, h2⟩ := hs.2 hl
+      have e1 : (Res.noMore == Res.error) = false := by decide
+      simp only [h1, h2, e1, Bool.false_eq_true, if_false, BEq.rfl, if_true, Bool.not_true]
+      exact ⟨trivial, trivial⟩
+  · cases h
+
+/-! ## nothing is stored beyond the capacity -/
+
+theorem channelSpec_bound (win : Bytes) (cap : Nat) : ∀ (fuel pos i : Nat) (vals : List Int),
+    vals.length ≤ i → vals.length ≤ cap → (channelSpec win cap fuel pos i vals).2.2.1.length ≤ cap := by
+  intro fuel
+  induction fuel with
+  | zero => intro pos i vals _ h2; exact h2
+  | succ fuel ih =>
+    intro pos i vals h1 h2
+    unfold channelSpec
+    generalize lexDecimal win pos = q
+    obtain ⟨p1, tok, r⟩ := q
+    simp only
+    split
+    · generalize lexSpecific win p1 33 = q2
+      obtain ⟨p2, tk2, rb⟩ := q2
+      simp only
+      have hlen : (if i < cap then vals ++ [tokInt32 win tok] else vals).length ≤ i + 1 ∧
+          (if i < cap then vals ++ [tokInt32 win tok] else vals).length ≤ cap := by
+        split
+        · simp; omega
+        · omega
+      split
+      · exact ih _ _ _ hlen.1 hlen.2
+      · exact hlen.2
+    · split <;> exact h2
+
+theorem channelRange_bound (win : Bytes) (pos cap : Nat) :
+    (channelRange win pos cap).2.2.2.1.length ≤ cap ∧ (channelRange win pos cap).2.2.2.2.1.length ≤ cap := by
+  have key : ∀ p, (channelSpec win cap (win.length + 2) p 0 []).2.2.1.length ≤ cap :=
+    fun p => channelSpec_bound win cap _ p 0 [] (Nat.le_refl _) (Nat.zero_le _)
+  unfold channelRange
+  have k1 := key pos
+  generalize channelSpec win cap (win.length + 2) pos 0 [] = q1 at k1
+  obtain ⟨p1, r1, vf, d1⟩ := q1
+  simp only at k1 ⊢
+  split
+  · generalize lexColon win p1 = c
+    obtain ⟨p2, ct, rc⟩ := c
+    simp only
+    split
+    · have k2 := key p2
+      generalize channelSpec win cap (win.length + 2) p2 0 [] = q2 at k2
+      obtain ⟨p3, r2, vt, d2⟩ := q2
+      simp only at k2 ⊢
+      split
+      · exact ⟨k1, k2⟩
+      · split <;> exact ⟨k1, k2⟩
+    · exact ⟨k1, Nat.zero_le _⟩
+  · split <;> exact ⟨k1, Nat.zero_le _⟩
+
+theorem chanLoop_bound (win : Bytes) (index cap : Nat) : ∀ (fuel i pos : Nat) (rng : Option Bool) (dims : Option Nat),
+    (chanLoop win index cap fuel i pos rng dims).2.2.2.1.length ≤ cap ∧
+    (chanLoop win index cap fuel i pos rng dims).2.2.2.2.1.length ≤ cap := by
+  intro fuel
+  induction fuel with
+  | zero => intro i pos rng dims; exact ⟨Nat.zero_le _, Nat.zero_le _⟩
+  | succ fuel ih =>
+    intro i pos rng dims
+    unfold chanLoop
+    have hb := channelRange_bound win pos (if i == index then cap else 0)
+    have hc : (if i == index then cap else 0) ≤ cap := by split <;> omega
+    generalize channelRange win pos (if i == index then cap else 0) = q at hb
+    obtain ⟨p, res, rng', vf, vt, d⟩ := q
+    simp only at hb ⊢
+    have hb' : vf.length ≤ cap ∧ vt.length ≤ cap := ⟨by omega, by omega⟩
+    split
+    · exact hb'
+    · split
+      · generalize lexComma win p = c
+        obtain ⟨p2, ct, rc⟩ := c
+        simp only
+        split
+        · exact hb'
+        · exact ih _ _ _ _
+      · exact hb'
+
+theorem stores_bounded (body : Bytes) (i cap : Nat) :
+    (channelListEntry body i cap).from_.length ≤ cap ∧ (channelListEntry body i cap).to_.length ≤ cap := by
+  rw [channelListEntry_eq]
+  have hb := chanLoop_bound body i cap (i + 2) 0 1 none none
+  generalize chanLoop body i cap (i + 2) 0 1 none none = r at hb
+  split
+  · simp only
+    split
+    · exact hb
+    · split
+      · split <;> exact hb
+      · exact hb
+  · exact ⟨Nat.zero_le _, Nat.zero_le _⟩
+
+theorem channel_error_pushes (body : Bytes) (i cap : Nat) :
+    let r := channelListEntry body i cap
+    (r.res = .error → r.pushed = [-170]) ∧ (r.res ≠ .error → r.pushed = []) := by
+  intro r
+  have hr : r = _ := channelListEntry_eq body i cap
+  rw [hr]
+  generalize chanLoop body i cap (i + 2) 0 1 none none = q
+  split
+  · simp only
+    split
+    · exact ⟨fun _ => rfl, fun h => absurd rfl h⟩
+    · rename_i hne
+      split
+      · split
+        · exact ⟨fun _ => rfl, fun h => absurd rfl h⟩
+        · exact ⟨fun h => (by cases h), fun _ => rfl⟩
+      · refine ⟨fun h => ?_, fun _ => rfl⟩
+        simp only at h
+        rw [h] at hne
+        exact absurd rfl hne
+  · exact ⟨fun _ => rfl, fun h => absurd rfl h⟩
 
 end ScpiVerif.Lemmas.ExprList
